@@ -1535,7 +1535,8 @@ func ruleFilterOnItsStore(c *Ctx, rule string) {
 		}
 	}
 	c.CallSites(n)
-	c.Floor(rule, 1)
+	// no floor: the sites exist only where the filter and the store it is run on are visible in one function (a
+	// parameter object carrying both is the caller's choice); the seeded control pair shows the rule still sees one
 }
 
 // ruleFkPresenceAsked: a foreign-key constraint that accepts a non-empty reference has asked the referenced
